@@ -18,6 +18,13 @@ BODIES = [
     (['expr'], [' .db @0, 2', ' .dseg', ' .byte 3', ' .cseg']),
     (['expr'], [' .eseg', ' .db @0', ' .cseg']),
     ([], [' nop', ' ret']),
+    # every argument count up to the ten parameters @0..@9
+    (['expr'] * 3, [' .db @0, @1', ' .db @2, @0']),
+    (['reg', 'reg', 'expr', 'expr', 'expr'], [' ldi @0, @2', ' ldi @1, @3', ' .dw @4']),
+    (['expr'] * 7, [' .db @0, @1, @2, @3', ' .db @4, @5, @6, 0']),
+    (['expr'] * 9, [' .db @8, @7, @6, @5', ' .db @4, @3, @2, @1', ' .dw @0']),
+    (['reg'] + ['expr'] * 9, [' ldi @0, @9', ' .db @1, @2, @3, @4', ' .db @5, @6, @7, @8']),
+    (['expr'] * 10, [' .dw @9, @0', ' .db @1, @2, @3, @4, @5, @6, @7, @8']),
 ]
 
 
@@ -88,6 +95,11 @@ def witnesses(n, seed):
             calls.append(' %s %s' % (spelled, ', '.join(arg_text(rnd, k) for k in kinds)))
             if rnd.random() < 0.4:
                 calls.append(' nop')
+        # a call as the very first item after an origin / a segment switch (a vector table built from a macro)
+        if rnd.random() < 0.4:
+            pre = rnd.choice([[' nop', '.org 0x%x' % rnd.randint(4, 40)], ['.org 0x%x' % rnd.randint(1, 40)],
+                              [' nop', '.dseg', 'v: .byte 1', '.cseg', '.org 0x%x' % rnd.randint(8, 40)], ['.eseg', '.db 1', '.cseg']])
+            calls = pre + calls
         # definitions before or after the calls
         if rnd.random() < 0.5:
             src_lines = main + defs + calls
